@@ -580,6 +580,9 @@ def pruneUnusedImports (f : GFile) : GFile :=
 def eliminateDeadVars (f : GFile) : GFile :=
   pruneUnusedImports (pruneDeadFunctions { items := f.items.map dceItem })
 
+/-- first step of `eliminate_dead_vars`: `dce_item` on every toplevel -/
+def mapDce (f : GFile) : GFile := { items := f.items.map dceItem }
+
 /-! ## Specification side: Go's scope rules for locals, and the contract of the pass
 
 These definitions do not mirror Rust code.  They state what DCE is for (`unusedStmts`,
@@ -935,5 +938,18 @@ def stmtCtxErrsTCases : List GTCase → Names
   | [] => []
   | .mk _ b :: rest => stmtCtxErrs b ++ stmtCtxErrsTCases rest
 end
+
+/-! ### the contract of the file-level preservation theorem (`Props/Dce.lean`, `dce_file_preserves`) -/
+
+/-- one function: no parameter is the blank identifier, and its body satisfies the contract of
+    `dce_preserves_syn` for the environment `callG` builds (exactly its parameters) -/
+def fnDceOK (f : GFunc) : Bool :=
+  !(f.params.map (·.1)).contains "_" &&
+  (scopeErrs (localsOf f) (f.params.map (·.1)) f.body).isEmpty &&
+  shapeOK f.body && semOK (inertSyn false) f.body []
+
+/-- a file: every function satisfies `fnDceOK`, function names are pairwise distinct (as Go requires) -/
+def fileDceOK (F : GFile) : Bool :=
+  F.funcs.all fnDceOK && decide ((F.funcs.map (·.name)).Nodup)
 
 end Goml.Dce
